@@ -42,19 +42,15 @@ def base_violations(commit):
     return _base_cache[commit]
 
 
-missed = []
-for d in sorted(glob.glob(os.path.join(V, "seeded", "*"))):
+def one(d):
     sid = os.path.basename(d)
-    if only and not any(o in sid for o in only):
-        continue
     meta = json.load(open(os.path.join(d, "meta.json")))
     base = meta.get("base_commit", "2928bef")
     sc = materialise(base)
     r = subprocess.run(["patch", "-p1", "-s", "-i", os.path.join(d, "patch.diff")], cwd=sc, stdout=subprocess.PIPE, stderr=subprocess.STDOUT, text=True)
     if r.returncode != 0:
-        print("%-52s patch does not apply on %s: %s" % (sid, base, r.stdout[-200:]))
         shutil.rmtree(sc, ignore_errors=True)
-        continue
+        return sid, False, "%-52s patch does not apply on %s: %s" % (sid, base, r.stdout[-200:])
     try:
         got = violations(sc)
     finally:
@@ -63,9 +59,20 @@ for d in sorted(glob.glob(os.path.join(V, "seeded", "*"))):
     caught = {p: sorted(ks - basev.get(p, set())) for p, ks in got.items() if ks - basev.get(p, set())}
     target = meta["breaks_property"]
     status = "caught by its own property" if target in caught else ("MISSED by %s" % target)
-    if target not in caught:
-        missed.append(sid)
-    print("%-52s [base %s] %s; all: %s" % (sid, base, status, {k: len(v) for k, v in caught.items()}))
+    out = "%-52s [base %s] %s; all: %s" % (sid, base, status, {k: len(v) for k, v in caught.items()})
     for k in caught.get(target, [])[:3]:
-        print("        %s" % k)
-sys.exit(1 if missed else 0)
+        out += "\n        %s" % k
+    return sid, target in caught, out
+
+
+if __name__ == "__main__":
+    from concurrent.futures import ProcessPoolExecutor
+    ds = [d for d in sorted(glob.glob(os.path.join(V, "seeded", "*"))) if not only or any(o in os.path.basename(d) for o in only)]
+    missed = []
+    with ProcessPoolExecutor(max_workers=10) as ex:
+        for sid, ok, out in ex.map(one, ds):
+            print(out)
+            sys.stdout.flush()
+            if not ok:
+                missed.append(sid)
+    sys.exit(1 if missed else 0)
